@@ -304,7 +304,7 @@ def run_case(case_seed, maxsite, fails, stats):
                 if want_dm:
                     if not dms_:
                         base = pick("state")
-                        if base is not None and not np.iscomplexobj(np.asarray(base.mp[0].array)):
+                        if base is not None:
                             dn = fresh()
                             dmo = Obj(MpDm.from_mps(base.mp), np.diag(base.ref), "dm", dn); dmo.q = base.q; dmo.refexpr = "r_" + dn
                             lines.append("%s = MpDm.from_mps(%s); r_%s = np.diag(r_%s)" % (dn, base.expr, dn, base.expr))
@@ -387,6 +387,22 @@ def run_case(case_seed, maxsite, fails, stats):
                 use_sum = n > 1 and rng.random() < 0.2
                 ref = sum(t.ref for t in terms)
                 if np.linalg.norm(ref) < 1e-6 * sum(np.linalg.norm(t.ref) for t in terms):
+                    continue
+                # the code cannot represent the zero vector (canonicalise / scale assert a non-zero tensor): reject inputs
+                # where a batch result of the reduction -- simulated on the dense references in the code's own queue order --
+                # cancels (happens e.g. in one-dimensional sectors, where all operands are phases times one basis vector)
+                queue = [(t.ref, float(np.linalg.norm(t.ref))) for t in terms]
+                bs_sim = len(queue) if use_sum else bs
+                cancels = False
+                while len(queue) > 1:
+                    chunk, queue = queue[:min(bs_sim, len(queue))], queue[min(bs_sim, len(queue)):]
+                    v, w = sum(c[0] for c in chunk), sum(c[1] for c in chunk)
+                    if np.linalg.norm(v) < 1e-6 * w:
+                        cancels = True
+                        break
+                    queue.append((v, w))
+                if cancels:
+                    stats["csum_rejected_partial_cancellation"] = stats.get("csum_rejected_partial_cancellation", 0) + 1
                     continue
                 lst = "[" + ", ".join(t.expr for t in terms) + "]"
                 if use_sum:
@@ -591,10 +607,18 @@ def run_case(case_seed, maxsite, fails, stats):
                 dms = [o for o in pool if o.kind == "dm"]
                 if opk == "dm" or not dms:
                     a = pick("state")
-                    if a is None or np.iscomplexobj(np.asarray(a.mp[0].array)):
-                        continue          # MpDm.from_mps builds real tensors
+                    if a is None:
+                        continue
+                    # complex tensors, and real tensors with a complex prefactor, included: the density operator must keep the
+                    # imaginary part (dense value AND dtype)
                     mp = MpDm.from_mps(a.mp)
                     ref = np.diag(a.ref)
+                    stats["checks"] = stats.get("checks", 0) + 1
+                    if np.iscomplexobj(np.asarray(a.mp[0].array)) and not (mp.is_complex and all(np.iscomplexobj(np.asarray(mt.array)) for mt in mp)):
+                        report("mpdm-from-mps:dtype", {"source_dtype": str(np.asarray(a.mp[0].array).dtype), "mpdm_dtype": str(mp.dtype), "tensor_dtype": str(np.asarray(mp[0].array).dtype)},
+                               "d = MpDm.from_mps(%s)\nprint('source', np.asarray(%s[0].array).dtype, 'MpDm.dtype', d.dtype, 'tensor', np.asarray(d[0].array).dtype)\n"
+                               "sys.exit(0 if d.is_complex and all(np.iscomplexobj(np.asarray(mt.array)) for mt in d) else 1)" % (a.expr, a.expr))
+                        return
                     lines.append("%s = MpDm.from_mps(%s); r_%s = np.diag(r_%s)" % (name, a.expr, name, a.expr))
                     o = Obj(mp, ref, "dm", name); o.q = a.q; o.refexpr = "r_" + name
                     pool.append(o)
